@@ -9,7 +9,7 @@
 //! reference recomputation; an accepted inclusion implies the stored value, an accepted exclusion implies
 //! absence.
 use crate::{ctx::Ctx, gen::smt::*, util::hex};
-use fuel_merkle::sparse::{self, in_memory::NodesTable, proof::{ExclusionLeaf, ExclusionLeafData, ExclusionProof, InclusionProof, Proof}};
+use fuel_merkle::sparse::{self, proof::{ExclusionLeaf, ExclusionLeafData, ExclusionProof, InclusionProof, Proof}};
 use std::collections::BTreeMap;
 
 type Tree = sparse::MerkleTree<NodesTable, ObsStore>;
@@ -24,6 +24,7 @@ fn fmt_sides(s: &[B32]) -> String {
 fn fmt_leaf(l: &ExclusionLeaf) -> String {
     match l { ExclusionLeaf::Placeholder => "ph".into(), ExclusionLeaf::Leaf(d) => format!("{}:{}", hex(&d.leaf_key), hex(&d.leaf_value)) }
 }
+pub fn fmt_proof_pub(p: &Proof) -> String { fmt_proof(p) }
 fn fmt_proof(p: &Proof) -> String {
     match p {
         Proof::Inclusion(i) => format!("incl {}", fmt_sides(&i.proof_set)),
